@@ -452,4 +452,6 @@ def run(ctx):
     gen = [x for x in walk_own(pr.node) if isinstance(x, ast.GeneratorExp) and "process_row" in norm(x.elt)]
     r5.check(len(gen) == 1 and not gen[0].generators[0].ifs and norm(gen[0].generators[0].iter) == "sheet_data", "dealias_and_group_headers:rows", "every row (blank ones included) is carried over, in order", pr.loc())
     rules.append(r5)
+    from .c20 import warning_census_rule
+    rules.append(warning_census_rule(ctx, "C13", "C13.R8"))
     return rules
